@@ -1,5 +1,5 @@
 // One translation unit per ( program, parse input type ) of the I/O jobs.
-//   -DIO_PROG=<1|2> -DIO_INPUT=<0 memory eager | 1 memory lazy | 2 cstream | 3 istream>
+//   -DIO_PROG=<1|2> -DIO_INPUT=<n>  (see io_types.hpp)
 #include <tao/pegtl.hpp>
 
 #include "io_grammars.hpp"
@@ -9,24 +9,32 @@ namespace sim
 {
 #if IO_PROG == 1
    using io_top = io::g_json;
-#else
+#elif IO_PROG == 2
    using io_top = io::g_lines;
+#elif IO_PROG == 3
+   using io_top = io::g_unsigned;
+#elif IO_PROG == 4
+   using io_top = io::g_signed;
+#else
+   using io_top = io::g_chunked;
 #endif
 
-#if IO_INPUT == 0
-   using io_in = io_mem_eager;
-#elif IO_INPUT == 1
-   using io_in = io_mem_lazy;
-#elif IO_INPUT == 2
-   using io_in = io_cstream;
-#else
-   using io_in = io_istream;
-#endif
+   using io_in = io_input< IO_INPUT >::type;
 
    template<>
    bool io_parse< IO_PROG, io_in >( io_in& in, sim_state& root )
    {
+#if IO_PROG == 3
+      (void)root;
+      std::uint64_t value = 0;
+      return pegtl::parse< io_top, sim_action, sim_control >( in, value );
+#elif IO_PROG == 4
+      (void)root;
+      std::int64_t value = 0;
+      return pegtl::parse< io_top, sim_action, sim_control >( in, value );
+#else
       return pegtl::parse< io_top, sim_action, sim_control >( in, root );
+#endif
    }
 
 }  // namespace sim
